@@ -52,13 +52,16 @@ KnownAfter(r) ==
     ELSE IF r.act = "remove" THEN known \ {NormLoc(r.loc)}
     ELSE known
 
+Seen(r) == ToSet(r.opened) \cup ToSet(r.stored)
+
+\* The paths of a line that the statement forbids.
+Unsafe(r) == {p \in Seen(r) : ~Core!Safe(pats, {p})}
+
 Verdict(r) ==
-    LET opened == ToSet(r.opened)
-        stored == ToSet(r.stored)
-    IN  IF ~Core!Safe(pats, opened \cup stored) THEN "unsafe"
-        ELSE IF ~(opened \subseteq Bound(r)) THEN "unexpected"
-        ELSE IF ~({NormLoc(x) : x \in ToSet(r.lists)} \subseteq KnownAfter(r)) THEN "model"
-        ELSE "ok"
+    IF Unsafe(r) # {} THEN "unsafe"
+    ELSE IF ~(ToSet(r.opened) \subseteq Bound(r)) THEN "unexpected"
+    ELSE IF ~({NormLoc(x) : x \in ToSet(r.lists)} \subseteq KnownAfter(r)) THEN "model"
+    ELSE "ok"
 
 Init == /\ l = 1
         /\ pats = {}
@@ -75,7 +78,8 @@ Reset(r) == /\ pats'  = {NormGlob(g) : g \in ToSet(r.pats)}
 
 Step(r) == /\ UNCHANGED <<pats, cwd, chars>>
            /\ known' = KnownAfter(r)
-           /\ bad'   = LET v == Verdict(r) IN IF v = "ok" THEN bad ELSE bad \cup {[i |-> l, kind |-> v]}
+           /\ bad'   = LET v == Verdict(r) IN IF v = "ok" THEN bad
+                                            ELSE bad \cup {[i |-> l, kind |-> v, paths |-> Unsafe(r)]}
 
 Next == /\ l <= Len(Trace)
         /\ LET r == Trace[l] IN IF r.act = "reset" THEN Reset(r) ELSE Step(r)
